@@ -15,7 +15,8 @@ Inductive qd_result :=
 | QD_vse                      (* VotingSystemError: over-award with policy error *)
 | QD_zerodiv                  (* Fraction(v, 0) *)
 | QD_index                    (* get_n_best({}, 1)[0] in _subtract_overaward *)
-| QD_unmodelled               (* a second tie inside _subtract_overaward: not modelled *)
+| QD_unmodelled               (* a Tie key tied with another key inside _subtract_overaward (Tie of a Tie); tie keys
+                                 coming back from the recursive cap call; LargestRemainder over tie keys *)
 | QD_fuel.
 
 Definition qsumv (votes : list (C * Q)) : Q := fold_left Qplus (map snd votes) 0%Q.
@@ -64,6 +65,58 @@ Section QD.
     | (c', s) :: t => if ceqb c c' then (if s =? 1 then t else (c', s - 1) :: t) else (c', s) :: dec_key t c
     end.
 
+  Definition key_eqb (a b : key) : bool :=
+    match a, b with
+    | K x, K y => ceqb x y
+    | KT x, KT y => forallb (fun c => cmem c y) x && forallb (fun c => cmem c x) y
+    | _, _ => false
+    end.
+
+  (* _subtract_overaward once a Tie object is a key of selected (L284-314 as written): the Tie key takes
+     part in the next remainders with votes.get(tie, 0) = 0 and prev_gains.get(tie, 0) = 0 *)
+  Definition krem (votes : list (C * Q)) (q : Q) (prev : list (C * Z)) (ks : key * Z) : Q :=
+    match fst ks with
+    | K c => (- (dget_or votes c 0%Q - q * inject_Z (snd ks + dget_or prev c 0)%Z))%Q
+    | KT _ => (- (0 - q * inject_Z (snd ks + 0)%Z))%Q
+    end.
+  Fixpoint kdec (d : list (key * Z)) (k : key) : list (key * Z) :=
+    match d with
+    | [] => []
+    | (k', s) :: t => if key_eqb k k' then (if s =? 1 then t else (k', s - 1) :: t) else (k', s) :: kdec t k
+    end.
+  Definition kmem (d : list (key * Z)) (k : key) : bool := existsb (fun kv => key_eqb k (fst kv)) d.
+  (* the members of a tie, when all of them are plain candidates *)
+  Fixpoint all_plain (ks : list key) : option (list C) :=
+    match ks with
+    | [] => Some []
+    | K c :: t => match all_plain t with Some l => Some (c :: l) | None => None end
+    | KT _ :: _ => None
+    end.
+
+  Fixpoint ksubtract (fuel : nat) (votes : list (C * Q)) (q : Q) (prev : list (C * Z))
+           (sel : list (key * Z)) (over : Z) : qd_result :=
+    if over <=? 0 then QD_ok sel else
+    match fuel with
+    | O => QD_fuel
+    | S f =>
+        let rem := map (fun ks : key * Z => (fst ks, krem votes q prev ks)) sel in
+        match get_n_best Qle_bool rem 1 with
+        | Cand k :: _ =>
+            (* a plain candidate, or the Tie key itself (isinstance(subtract_cand, Tie) and subtract_cand in selected) *)
+            ksubtract f votes q prev (kdec sel k) (over - 1)
+        | TieR ks :: _ =>
+            match all_plain ks with
+            | Some l =>
+                if kmem sel (KT l)
+                then ksubtract f votes q prev (kdec sel (KT l)) (over - 1)
+                else ksubtract f votes q prev
+                       (fold_left kdec (map K l) sel ++ [(KT l, Z.of_nat (length l) - 1)]) (over - 1)
+            | None => QD_unmodelled
+            end
+        | [] => QD_index
+        end
+    end.
+
   (* _subtract_overaward while no Tie key is present in selected *)
   Fixpoint subtract (fuel : nat) (votes : list (C * Q)) (q : Q) (prev : list (C * Z))
            (sel : list (C * Z)) (over : Z) : qd_result :=
@@ -80,7 +133,8 @@ Section QD.
             let sel' := fold_left dec_key l sel in
             if over - 1 <=? 0
             then QD_ok (map (fun kv => (K (fst kv), snd kv)) sel' ++ [(KT l, Z.of_nat (length l) - 1)])
-            else QD_unmodelled
+            else ksubtract f votes q prev
+                   (map (fun kv => (K (fst kv), snd kv)) sel' ++ [(KT l, Z.of_nat (length l) - 1)]) (over - 1)
         | [] => QD_index
         end
     end.
@@ -127,12 +181,6 @@ Section QD.
   | LR_err (r : qd_result)
   | LR_index.             (* negative n_for_remainder: Python negative slicing, not modelled *)
 
-  Definition key_eqb (a b : key) : bool :=
-    match a, b with
-    | K x, K y => ceqb x y
-    | KT x, KT y => forallb (fun c => cmem c y) x && forallb (fun c => cmem c x) y
-    | _, _ => false
-    end.
   Fixpoint kincr (d : list (key * Z)) (k : key) : list (key * Z) :=
     match d with
     | [] => [(k, 1)]
